@@ -157,6 +157,26 @@ def check(run: Run) -> None:
         for k, v in want.items():
             if d.get(k) != v:
                 run.finding("C11.b2", f"prepare:{k}", f"{k} must be `{v}`, is `{d.get(k)}`", loc=RED)
+        # value-modified leaves are candidates on EVERY non-full cycle in which the collection ticked (also on a rebuild cycle)
+        def conj(e):
+            if isinstance(e, C.Binary) and e.op == "&&":
+                return conj(e.l) | conj(e.r)
+            return {cn(e).replace(" ", "")}
+        mod_if = [s for s in fa.body.stmts if isinstance(s, C.If) and R.calls(s.then, "append_modified_leaves")]
+        run.count(1, "C11.b2.modified-leaves")
+        if len(mod_if) != 1:
+            run.finding("C11.b2", "prepare:modified-leaves-missing", "the paths of value-modified leaves must be added to the candidates", loc=RED)
+        else:
+            got = conj(mod_if[0].cond)
+            want_c = {"!full_scan", "collection_event", "context.collection_ops->available(collection_input)"}
+            if got != want_c:
+                run.finding("C11.b2", "prepare:modified-leaves-guard", f"value-modified leaves must be candidates iff {sorted(want_c)}; the guard is {sorted(got)} "
+                            "(an extra conjunct drops a key's update made in the same cycle as a structural change)", loc=fa.loc(mod_if[0]))
+            if not R.calls(mod_if[0].then, "append_leaf_path"):
+                run.finding("C11.b2", "prepare:modified-leaves-path", "every modified leaf contributes its leaf-to-root path", loc=fa.loc(mod_if[0]))
+        st_if = [s for s in fa.body.stmts if isinstance(s, C.If) and "storage.structural_positions" in " ".join(cn(l.range) for l in R.loops(s.then) if isinstance(l, C.RangeFor))]
+        if len(st_if) != 1 or conj(st_if[0].cond) != {"rebuilt", "!full_scan"}:
+            run.finding("C11.b2", "prepare:structural-guard", "structural positions are candidates iff rebuilt && !full_scan", loc=RED)
         zc = [s for s in fa.body.stmts if isinstance(s, C.If) and "zero_event" in cn(s.cond)]
         c = cn(zc[0].cond).replace(" ", "") if zc else ""
         for need in ("!full_scan", "zero_event", "storage.dense_to_key.size()==1", "!storage.combiners.empty()", "storage.combiners[0]!=nullptr"):
@@ -232,8 +252,57 @@ def check(run: Run) -> None:
         if not ok:
             run.finding("C11.e", "wire_reduce:zero-input", "the zero port must be wired as an input iff it has a value", loc=HO)
 
+    with run.obligation("C11.f", "K13", "leaf registration: every site that appends a leaf records, for ONE source position S, the key derived from S, the "
+                        "source slot S itself and the output handle found at S; the dense index is never stored as a source slot"):
+        n = 0
+        for fd in t.file(RED).funcs:
+            if fd.body is None or "dense_to_source_slot . push_back" not in t.file(RED).text(fd.body[0], fd.body[1]):
+                continue
+            fa = R.parse(run, fd, strict=False)
+            cn = R.aliases_of(fa)
+            for blk in [b for b in fa.body.walk() if isinstance(b, C.Block)]:
+                direct = [s for s in blk.stmts if isinstance(s, C.ExprStmt)]
+                push = [c for s in direct for c in R.calls(s, "push_back") if cn(c.fn).endswith("dense_to_source_slot.push_back")]
+                if not push:
+                    continue
+                n += 1
+                run.count(1, "C11.f.site")
+                S = cn(push[0].args[0])
+                loc = fa.loc(push[0])
+                emp = [c for s in direct for c in R.calls(s, "emplace") if cn(c.fn).endswith("key_to_leaf.emplace")]
+                hnd = [c for s in direct for c in R.calls(s, "push_back") if cn(c.fn).endswith("dense_to_source_handle.push_back")]
+                keyp = [c for s in direct for c in R.calls(s, "push_back") if cn(c.fn).endswith("dense_to_key.push_back")]
+                if len(emp) != 1 or len(hnd) != 1 or len(keyp) != 1:
+                    run.finding("C11.f", f"{fd.name}:incomplete-registration", "a leaf registration must update key_to_leaf, dense_to_key, dense_to_source_slot and "
+                                "dense_to_source_handle together", loc=loc)
+                    continue
+                D = cn(emp[0].args[1])
+                if S == D or S.endswith("dense_to_key.size()") or not re.fullmatch(r"[A-Za-z_]\w*", S):
+                    run.finding("C11.f", f"{fd.name}:slot-is-dense-index", f"dense_to_source_slot receives `{S}`, the DENSE index of the new leaf, instead of the "
+                                "source position it was read from: the leaf aliases another element's slot", loc=loc)
+                    continue
+                # S must be the position the key and the handle were derived from (resolve single-assignment locals of the enclosing scopes)
+                locals_ = {d.name: cn(d.init) for d in R.find(fa, lambda x: isinstance(x, C.Declarator) and x.init is not None and x.bindings is None)}
+
+                def expand(txt, depth=3):
+                    for _ in range(depth):
+                        txt2 = re.sub(r"\b([A-Za-z_]\w*)\b", lambda m: f"({locals_[m.group(1)]})" if m.group(1) in locals_ and m.group(1) != S else m.group(0), txt)
+                        if txt2 == txt:
+                            break
+                        txt = txt2
+                    return txt
+                h = expand(cn(hnd[0].args[0]))
+                k = expand(cn(keyp[0].args[0]))
+                srx = re.compile(r"(?<![\w.>])" + re.escape(S) + r"(?!\w)")
+                if not srx.search(h) or not srx.search(k):
+                    run.finding("C11.f", f"{fd.name}:slot-mismatch", f"the stored source slot `{S}` is not the position the key (`{k[:80]}`) and the handle "
+                                f"(`{h[:80]}`) were read from", loc=loc)
+        run.sites(n, 5, "leaf registration sites")
+
 
 VARIANTS = [
+    {"id": "f-slot-gets-dense-index", "expect": "C11.f", "edits": [{"file": RED, "find": "                    storage.dense_to_key.push_back(std::move(key));\n                    storage.dense_to_source_slot.push_back(index);\n                    storage.dense_to_source_handle.push_back(\n                        effective_output_handle(child.bound_output()));", "replace": "                    storage.dense_to_key.push_back(std::move(key));\n                    storage.dense_to_source_slot.push_back(dense_leaf);\n                    storage.dense_to_source_handle.push_back(\n                        effective_output_handle(child.bound_output()));"}]},
+    {"id": "b2-modified-leaves-skipped-on-rebuild", "expect": "C11.b2", "edits": [{"file": RED, "find": "            if (!full_scan && collection_event &&\n                context.collection_ops->available(collection_input))", "replace": "            if (!full_scan && !rebuilt && collection_event &&\n                context.collection_ops->available(collection_input))"}]},
     {"id": "a-zero-with-two", "expect": "C11.a", "edits": [{"file": RED, "find": "if (context.spec.has_zero && live == 1 && !storage.combiners.empty())", "replace": "if (context.spec.has_zero && live >= 1 && !storage.combiners.empty())"}]},
     {"id": "a-empty-returns-leaf", "expect": "C11.a", "edits": [{"file": RED, "find": "                if (leaf < storage.dense_to_key.size()) { return {Aggregate::Kind::Leaf, leaf}; }", "replace": "                if (leaf <= storage.dense_to_key.size()) { return {Aggregate::Kind::Leaf, leaf}; }"}]},
     {"id": "a-empty-without-zero-valid", "expect": "C11.a", "edits": [{"file": RED, "find": "                    return storage.zero_source.bound()\n                               ? storage.zero_source.view(evaluation_time)\n                               : TSOutputView{};", "replace": "                    return storage.zero_source.view(evaluation_time);"}]},
